@@ -12,4 +12,5 @@ PROPERTY ValidityMonotone
 PROPERTY CountsMonotone
 PROPERTY AdvanceInert
 PROPERTY FrozenOnlyAtEnd
+PROPERTY Termination
 CHECK_DEADLOCK FALSE
